@@ -77,7 +77,10 @@ AsPosts == {RegX(a, q, NoEx, NoEx, s) : a \in {"A"}, q \in {Q("X", 1, 0), Q("X",
            \cup {Omit("E"), Omit("A")} \cup {Assign("A", Q("X", 2, 0)), Assign("A", Bare0)}
 As1Posts == {RegX("A", Q("X", 1, 0), NoEx, NoEx, s) : s \in {NoQ, Q("X", 1, 0), Q("X", 3, 0)}} \cup {Reg("A", Q("Y", -2, 0)), Omit("E")}
 ScriptAssert == <<TxnSlot(1, As1Posts, As1Posts, 1, 3), TxnSlot(2, AsPosts, AsPosts, 1, 2)>>
-ScriptAssertT == <<TxnSlot(1, As1Posts, As1Posts, 1, 3), TxnSlot(2, AsPosts, AsPosts, 1, 3)>>
+\* (three postings: the zero-amount asserted postings are thinned to four shapes to keep the thorough tier within memory)
+AsPostsT == {p \in AsPosts : p.kind = "reg" /\ DecIsZero(p.q.v) =>
+                              <<p.q.c, p.asrt>> \in {<<"", Q("X", 1, 0)>>, <<"", Bare0>>, <<"X", Q("X", 3, 0)>>, <<"X", Q("Y", -2, 0)>>}}
+ScriptAssertT == <<TxnSlot(1, As1Posts, As1Posts, 1, 3), TxnSlot(2, AsPostsT, AsPostsT, 1, 3)>>
 ScriptDeferred == <<TxnSlot(1, {Reg("A", Q("X", 1, 0))}, {Omit("E")}, 2, 2), TxnSlot(2, AsPosts, AsPosts, 2, 3)>>
 
 \* ---------------------------------------------------------------- deduced amounts vs declared precision
@@ -93,7 +96,9 @@ ScriptDeducePrec == <<DeclSlot({DeclC("X", <<>>, p) : p \in {0, 1}}, FALSE),
 \* ---------------------------------------------------------------- dated histories for the reports (C04)
 \* three transactions, each on any of three dates IN ANY ORDER (files need not be chronological),
 \* with and without a declared precision, a commodity that cancels out, an inferred amount
-DtFirst == {Reg("A", Q("X", 1, 0)), Reg("A", Q("X", -1, 0)), Reg("A", Q("X", 4, 1)), Reg("B", Q("Y", 2, 0)), Reg("A", Q("X", 15, 1))}
+\* (and an account closed by assignment, `A  = 0 X`: it holds nothing afterwards, in every report)
+DtFirst == {Reg("A", Q("X", 1, 0)), Reg("A", Q("X", -1, 0)), Reg("A", Q("X", 4, 1)), Reg("B", Q("Y", 2, 0)), Reg("A", Q("X", 15, 1)),
+            Assign("A", Q("X", 0, 0))}
 ScriptDates == <<DeclSlot({DeclC("X", <<>>, 0)}, TRUE),
                  TxnSlotD({1, 2, 3}, DtFirst, {Omit("E")}, 2, 2),
                  TxnSlotD({1, 2, 3}, DtFirst, {Omit("E"), Omit("B")}, 2, 2),
@@ -106,7 +111,7 @@ ScriptDatesT == <<DeclSlot({DeclC("X", <<>>, 0), DeclC("X", <<>>, 1)}, TRUE),
                   TxnSlotD({1, 2, 3}, DtFirstT, {Omit("E"), Reg("E", Q("X", -1, 0))}, 2, 2)>>
 
 \* ---------------------------------------------------------------- aliases and declaration order
-AlDecl == {DeclA("A", <<"a">>), DeclA("B", <<"a">>), DeclA("a", <<>>), DeclA("A", <<"B">>),
+AlDecl == {DeclA("A", <<"a">>), DeclA("B", <<"a">>), DeclA("a", <<>>), DeclA("A", <<"B">>), DeclA("A", <<"b", "a">>),
            DeclC("X", <<"x">>, -1), DeclC("x", <<>>, -1), DeclC("Y", <<"x", "X">>, -1), DeclC("X", <<"x">>, 0)}
 AlPosts == {Reg(a, q) : a \in {"A", "a", "B"}, q \in {Q("X", 1, 0), Q("x", 1, 0), Q("x", -1, 0), Q("Y", -1, 0)}}
            \cup {RegX("a", Q("X", 1, 0), NoEx, NoEx, Q("x", 2, 0)), RegX("A", Q("Y", 1, 0), Rate("x", 1, 0), NoEx, NoQ), Omit("B"), Omit("a")}
